@@ -88,6 +88,10 @@ func (c *CodecConn[Enc, Dec]) ReadNext() (Dec, error) {
 func (c *CodecConn[Enc, Dec]) WriteNext(item Enc) (n int, err error) {
 	err = c.codec.Encode(item, c.dst)
 	if err == nil {
+		// An encoder may leave what it wrote in the write area; it is made readable here so that it goes out with this
+		// item. For encoders which commit themselves this does nothing.
+		c.dst.Commit(c.dst.WriteLen())
+
 		var nn int64
 		nn, err = c.dst.WriteTo(c.stream)
 		n = int(nn)
@@ -98,6 +102,9 @@ func (c *CodecConn[Enc, Dec]) WriteNext(item Enc) (n int, err error) {
 func (c *CodecConn[Enc, Dec]) AsyncWriteNext(item Enc, cb AsyncCallback) {
 	err := c.codec.Encode(item, c.dst)
 	if err == nil {
+		// See WriteNext.
+		c.dst.Commit(c.dst.WriteLen())
+
 		c.dst.AsyncWriteTo(c.stream, cb)
 	} else {
 		cb(err, 0)
